@@ -7,7 +7,8 @@ repetition (`*` / `+`) of a class, optionally the whole body of one capture grou
 `tools/extract` on every run; anything else is reported as unsupported). -/
 namespace AM.Rx
 
-/-- a character class as a list of inclusive byte ranges -/
+/-- a character class as a list of inclusive code ranges (bytes are the characters 0–255; the
+non-ASCII part of a class is all-or-nothing, written `(128, 0x10FFFF)`) -/
 abbrev Cls := List (Nat × Nat)
 
 def Cls.mem (c : Cls) (ch : Char) : Bool := c.any fun r => r.1 ≤ ch.toNat && ch.toNat ≤ r.2
@@ -97,10 +98,11 @@ def find (p : Pat) (s : Str) : Option (Nat × Nat × List Str) :=
 
 def Pat.isMatch (p : Pat) (s : Str) : Bool := (find p s).isSome
 
-/-- `SubexpIndex(name)` applied to the submatch slice (group 0 excluded) -/
-def Pat.group (p : Pat) (name : String) (caps : List Str) : Option Str :=
-  match p.caps.idxOf? name with
-  | some i => caps[i]?
-  | none => none
+def lookupCap : List String → List Str → String → Option Str
+  | n :: ns, c :: cs, name => if n = name then some c else lookupCap ns cs name
+  | _, _, _ => none
+
+/-- `matches[SubexpIndex(name)]` on the submatch slice (group 0 excluded); `none` = no such group -/
+def Pat.group (p : Pat) (name : String) (caps : List Str) : Option Str := lookupCap p.caps caps name
 
 end AM.Rx
